@@ -10,7 +10,7 @@ from __future__ import annotations
 import random
 
 CONCEPTS = ['node', 'color', 'room', 'patient', 'seat', 'waiter', 'drink', 'movie', 'director', 'city', 'truck',
-            'parcel', 'nurse', 'shift', 'teacher', 'lesson', 'vertex', 'robot', 'task', 'agent']
+            'parcel', 'nurse', 'shift', 'teacher', 'lesson', 'vertex', 'robot', 'task', 'agent', 'classroom', 'subtask']
 ATTRS = ['name', 'weight', 'cost', 'level', 'size', 'kind', 'rank', 'code']
 VERBS = [('rated', 'by'), ('assigned', 'to'), ('sent', 'to'), ('placed', 'in'), ('taken', 'from'), ('linked', 'to'),
          ('chosen', None), ('marked', None), ('picked', None), ('kept', 'in')]
@@ -36,6 +36,8 @@ class Concept:
         for k in self.keys:
             if k[0] == 'own':
                 out.append((path + (self.name,), k[1]))
+            elif k[0] == 'fkpath':
+                out += k[2].flat_keys(path + (self.name, k[1].name))
             else:
                 out += k[1].flat_keys(path + (self.name,))
         return out
@@ -51,6 +53,8 @@ class Concept:
         for k in self.keys:
             if k[0] == 'fk':
                 d = max(d, 1 + k[1].depth())
+            elif k[0] == 'fkpath':
+                d = max(d, 2)
         return d
 
 
@@ -97,11 +101,16 @@ def gen_schema(rng, n=None, allow_fk=True):
         earlier = [x for x in concepts if x.depth() < 2]
         if allow_fk and earlier and r < 0.45:
             # one or two foreign keys, maybe an own key as well
-            fks = rng.sample(earlier, min(len(earlier), rng.choice([1, 1, 2])))
+            fks = rng.sample(earlier, min(len(earlier), rng.choice([1, 1, 2, 2, 3])))
             for f in fks:
                 c.keys.append(('fk', f))
             if rng.random() < 0.4:
                 c.keys.insert(rng.randrange(len(c.keys) + 1), ('own', rng.choice(['id', 'order', 'slot'])))
+            # a key reached through a path: `identified by a paint node` (only the nested key of paint)
+            paths = [(x, k[1]) for x in earlier for k in x.keys if k[0] == 'fk' and k[1].depth() == 0]
+            if paths and rng.random() < 0.35:
+                x, y = rng.choice(paths)
+                c.keys = [('fkpath', x, y)] + ([('own', 'id')] if rng.random() < 0.3 else [])
         elif r < 0.85:
             c.keys.append(('own', 'id'))      # several concepts keyed by `id`
             if rng.random() < 0.15:
@@ -118,12 +127,15 @@ def gen_schema(rng, n=None, allow_fk=True):
 def decl_sentence(c):
     parts = []
     for k in c.keys:
+        if k[0] == 'fkpath':
+            parts.append(f'by {article(k[1].name)} {k[1].name} {k[2].name}')
+            continue
         nm = k[1] if k[0] == 'own' else k[1].name
         parts.append(f'by {article(nm)} {nm}')
     text = f'{article(c.name).capitalize()} {c.name} is identified ' + ', and '.join(parts)
     if c.attrs:
         text += ', and has ' + ', and '.join(f'{article(a)} {a}' for a in c.attrs)
-    return Sentence(text + '.', 'declaration', defines=[c.name], uses=[k[1].name for k in c.keys if k[0] == 'fk'])
+    return Sentence(text + '.', 'declaration', defines=[c.name], uses=[k[1].name for k in c.keys if k[0] in ('fk', 'fkpath')])
 
 
 def domain_sentence(rng, c):
